@@ -10,6 +10,8 @@ real_namespace = common.real_namespace
 GOALS = ["two requests answered in order", "worker chained the next request", "partial send resumed by the I/O thread", "pre-empted schedule explored",
          "connection closed after Connection: close", "interim response in the stream"]
 ASSUMPTIONS = [
+    "with one worker, channel_request_lookahead >= 1 and the cut at the first message boundary the second read's bytes are sent by a client thread, so their "
+    "arrival time is part of the schedule; otherwise both reads are available from the start",
     "interleavings at the granularity of every source line of channel.py, every lock / condition operation and every socket / pipe / select call; "
     "interleavings inside one statement are represented only where an environment call sits inside it",
     "the client keeps reading; the first send() accepts all / 1 / len-1 bytes or would block, the second accepts all or would block",
@@ -71,7 +73,7 @@ def make_inputs(job):
         b0, b1 = (None, 0, 1, -1), (None, 0)
     else:
         spots = sorted(set([0, len(reqs[0]), len(data) - 2]) - {len(data)})
-        b0, b1 = (None, 0, -1), (None, 0)
+        b0, b1 = (None, 0, -1, "stall4-partial"), (None, 0)
     cut = spots[eng.choose(len(spots), "cut")]
     budgets = [b0[eng.choose(len(b0), "acc0")], b1[eng.choose(len(b1), "acc1")]]
     return dict(pipe=job["pipe"], lookahead=job["lookahead"], workers=job["workers"], P=job["P"], cut=cut, budgets=budgets, gran=job["gran"])
@@ -139,14 +141,24 @@ def scenario(ns, inp):
     try:
         data = b"".join(KINDS[k] % (i + 1) for i, k in enumerate(inp["pipe"]))
         pieces = [data] if not inp["cut"] else [data[:inp["cut"]], data[inp["cut"]:]]
-        conn = sysm.connect(pieces)
+        timed = len(pieces) > 1 and inp["lookahead"] >= 1 and inp["workers"] == 1 and inp["cut"] == len(KINDS[inp["pipe"][0]] % 1)
+        conn = sysm.connect(pieces[:1] if timed else pieces)
+        if timed:
+            # the second read's bytes arrive whenever the scheduler lets the client run
+            def client():
+                from wsx import sched as _s
+                _s.yield_point("client.send")
+                conn.inbox.append(pieces[1])
+            sysm.s.spawn(client, "client")
         orig_send = conn.send
         budgets = list(inp["budgets"])
 
         def send(d):
             if budgets:
                 b = budgets.pop(0)
-                if b is not None:
+                if b == "stall4-partial":
+                    conn.accept = [0, 0, 0, 0, 50]  # the client does not read while the responses are produced, then takes 50 bytes
+                elif b is not None:
                     conn.accept = [len(d) - 1 if b == -1 else b]
             return orig_send(d)
 
@@ -166,7 +178,7 @@ def scenario(ns, inp):
 
 def oracle(inp, obs):
     out = [("no thread dies with an exception (%r)" % (obs["exc"],), not obs["exc"]),
-           ("the I/O loop and the workers are alive at quiescence", "io" in obs["live"])]
+           ("the I/O loop and the workers are alive at quiescence", "io" in obs["live"] and any(n.startswith("waitress-") for n in obs["live"]))]
     finals, interims, rest = split(obs["wire"])
     out.append(("requests are executed one at a time, in arrival order, each exactly once (calls %r, expected %r)" % (obs["calls"], obs["refcalls"]),
                 obs["calls"] == obs["refcalls"]))
